@@ -2,7 +2,7 @@
 //
 // Bounded exhaustive product: every long-hand of the generated property table (plus two
 // custom properties) × tree position (root, child, grandchild, ::before, ::marker, page
-// context, margin-box context, anonymous boxes) × declared state (none, inherit, initial,
+// context, margin-box context, ::before of the root, anonymous boxes) × declared state (none, inherit, initial,
 // the specification's initial value, up to six explicit values) × parent state × dependency
 // context × every order of a three-element access set (values are computed lazily and cached).
 // Oracle: the relational clauses R1..R6 of DESIGN §C04 (totality, defaulting, inherit/initial,
@@ -162,12 +162,13 @@ func (c *check) Init(tier string, seed int64) engine.Space {
 	}
 	return engine.Space{
 		Units: c.nA + c.nB + c.nC + c.nD + c.nE, Chunk: 2, Level: "model_checking",
-		Rule: "five index-addressable blocks. (A) one unit per (position, property): every declared state {none, inherit, initial, specification initial value, explicit values} × parent {none, explicit} × dependency context, each evaluated on a fresh style set under all 6 orders of the access set {p on the element, p on the parent (child for the root), dependency q on the element} for each listed dependency, plus full sweeps Get(all); a case (= one document) is non-trivial when the relational clause of its state was actually compared. (B) one unit per property: every anonymous box of a document that generates anonymous block, line and text boxes, the anonymous table parts around a lone cell, anonymous flex and grid items and the text of a ::before (the boxes of a ::marker are not anonymous boxes and are left out). (C) one unit per property: every length template the validator accepts × position × unit, plus one rule shared by two elements, plus every ordered pair of font-relative units on two users of one document (siblings, parent and child, two properties of one element; both read orders). (D) two units: Get(all) in two sweep orders on every element, pseudo-element, page and margin-box style of a document with one element of every kind, under the real user-agent sheet, presentational hints off/on. (E) one unit per property: a container of every display whose boxes the box builder wraps or completes, with an explicit value of the property, and children of every kind (block child, caption, row, cell, ::before) declaring inherit; every property of every element is read before box building, again after it, and (on a fresh style set) only after it",
+		Rule: "five index-addressable blocks. (A) one unit per (position, property): every declared state {none, inherit, initial, specification initial value, explicit values} × parent {none, explicit} × dependency context, each evaluated on a fresh style set under all 6 orders of the access set {p on the element, p on the parent (child for the root), dependency q on the element} for each listed dependency, plus full sweeps Get(all); a case (= one document) is non-trivial when the relational clause of its state was actually compared. (B) one unit per property: every anonymous box of a document that generates anonymous block, line and text boxes, the anonymous table parts around a lone cell, anonymous flex and grid items and the text of a ::before (the boxes of a ::marker are not anonymous boxes and are left out). (C) one unit per property: every length template the validator accepts × position × unit, the font-relative units a second time with every pseudo-element of the root (html::before, ::after, ::marker, ::first-line, ::first-letter, ::footnote-call, ::footnote-marker) carrying a font size of its own; every value without a relative part (each keyword alternative the validator accepts for a length-valued property, alone and in the first / last slot of a template next to pixel lengths, and the pixel lengths alone) × position × context against the value as specified; plus one rule shared by two elements, plus every ordered pair of font-relative units on two users of one document (siblings, parent and child, two properties of one element; both read orders). (D) two units: Get(all) in two sweep orders on every element, pseudo-element, page and margin-box style of a document with one element of every kind, under the real user-agent sheet, presentational hints off/on; the pseudo-elements of its root carry a font size of their own, and a rem length next to the same length in px on the page, margin-box and pseudo-element styles must compute alike. (E) one unit per property: a container of every display whose boxes the box builder wraps or completes, with an explicit value of the property, and children of every kind (block child, caption, row, cell, ::before) declaring inherit; every property of every element is read before box building, again after it, and (on a fresh style set) only after it",
 		Bounds: map[string]any{
 			"properties": n, "positions": posNames[:], "contexts": ctxNames[:nctx], "dependencies": c.deps(),
 			"access_orders": len(orders), "max_explicit_values": map[string]int{"quick": 1, "thorough": maxValues}[tier],
 			"value_menu_size": len(valueMenu), "length_templates": lengthTemplates,
 			"units_of_length": []string{"in", "px", "pt", "pc", "cm", "mm", "q", "em", "rem", "ex", "ch", "%"},
+			"length_keywords": lengthKeywords, "root_pseudo_elements": []string{"none", rootPseudoRule},
 		},
 		Assumptions: []string{
 			"blocks A-C: the user-agent sheet is replaced by an empty sheet so that 'no declaration' really means none (the UA sheet's own declarations are the cascade's business, C03); block D uses the real sheet",
@@ -175,6 +176,7 @@ func (c *check) Init(tier string, seed int64) engine.Space {
 			"anchor, link and lang have no CSS specification: their inherited flag is read from the implementation's table (counted as unclassified_properties)",
 			"page: the implementation stores the used value (auto resolved to the nearest ancestor's name, '' on the root) in place of the computed value; the clauses compare modulo that resolution",
 			"deep equality is taken on the %#v form of the property values; the absolutisation clause compares floats with a relative tolerance of 1e-5 (float32 arithmetic)",
+			"R6-keyword: the computed value of a keyword or pixel length is the validated value (size keywords converted to px by the fixed ratios, border-image-outset/width expanded to four sides), except where the definition table says otherwise: border/outline/column-rule widths (0 without a style, thin/medium/thick an absolute length), font-size keywords (an absolute length), word-spacing:normal (0), bleed:auto (6pt with crop marks, else 0); letter-spacing:normal and vertical-align:sub/super are not asserted; identifiers that are no keyword but that the validator accepts (counted as validator-accepts-any-identifier) are left out",
 		},
 		BudgetS: map[string]float64{"quick": 100, "thorough": 600}[tier],
 	}
